@@ -1005,12 +1005,6 @@ impl OcflRepo {
         inventory.type_declaration = version.inventory_type().to_string();
         staging.stage_inventory(&inventory, false, false)?;
 
-        if inventory.is_new() {
-            // The object has never been committed, so the staged object root that will be
-            // moved into the repository still declares the version it was created with
-            staging.stage_object_declaration(&inventory)?;
-        }
-
         self.commit_inner(object_id, meta, None, pretty_print, staging)
     }
 
@@ -1079,6 +1073,11 @@ impl OcflRepo {
         // Last chance to ctrl-c before committing
         if self.is_open() {
             if inventory.is_new() {
+                // The object has never been committed, so the staged object root is moved into
+                // the repository as is. Its declaration must match the inventory, which is not
+                // the case if the object was upgraded after it was created.
+                staging.stage_object_declaration(&inventory)?;
+
                 let src_object_root = PathBuf::from(&inventory.storage_path);
                 self.store
                     .write_new_object(&mut inventory, &src_object_root, object_root)?;
